@@ -188,12 +188,17 @@ class C11(Prop):
             "the end) for gdist1g/2g/1p/2p; map-function arguments 0, 1e-12 .. 1e-2 around 1e-8 / 1e-5 / 1e-4, dyadic, "
             "large (178, 355, 700, 1e4, 1e300, 1.5e308), inf, as 1-D / column / non-contiguous / Fortran-ordered 2-D arrays, 0-d "
             "scalars, integer arrays, empty arrays; histories of 1-6 "
-            "calls on ONE map object (remove / select by index array, negative indices, boolean mask, slice incl. "
-            "negative step, int, python list; remove_discrepancies; prune; build_spline; group / ungroup / reorder / sort with and "
+            "calls on ONE map object (remove / select by index array, negative indices, negative and non-negative indices "
+            "mixed (numerically ascending arrays that wrap around), boolean mask, slice incl. "
+            "negative step, int, python list; every select() whose integer indices are not ascending is repeated on a "
+            "copy of the object with the SAME markers in ascending order and the two results compared (sequential "
+            "distances over the own markers, is_congruent, interp_genpos) whenever either reports is_grouped(); remove_discrepancies; prune; build_spline; group / ungroup / reorder / sort with and "
             "without keys; re-assignment AND in-place edit of vrnt_phypos / vrnt_genpos; copy / deepcopy; interp_gmap, continuing "
             "on the DERIVED map, also derived maps shorter than their parent) with "
             "every law re-checked after every call on the object as it stands and, at the end, on the objects copies / "
-            "derived maps were taken from; genotype matrices (phased/unphased) grouped by the real group_vrnt, 70% with "
+            "derived maps were taken from; genotype matrices (phased/unphased) grouped by the real group_vrnt, 40% of them "
+            "grouped under OTHER labels (a chromosome cut into two groups / grouped together with its predecessor / "
+            "renamed) and their chromosome labels re-assigned through the vrnt_chrgrp property before any placement, 70% with "
             "1-4 placements on TWO maps / map functions on the same object, then a second matrix placed on the same "
             "maps; empty query / variant sets; two maps with > 1024 markers, one with 280 chromosomes.  "
             "Non-trivial = mapfn case with >= 3 distinct distances incl. a positive finite one; gdist case "
@@ -212,7 +217,15 @@ class C11(Prop):
                "the doubles round-trip exactly)",
                "derived maps (interp_gmap): the model continues on the implementation's doubles wherever they are within the "
                "float tolerance of its exact positions (ties of exact values can be split by an ulp in binary64)"]
-    ASSUMPTIONS = ["genetic positions are dyadic rationals, physical positions integers < 2^53: float results are "
+    ASSUMPTIONS = ["history of a genotype matrix: labels re-assigned after group_vrnt stay ascending and keep the "
+                   "(chromosome, position) order of the variants (chromosome boundaries move); the group indices the "
+                   "matrix cached are not read by interp_xoprob / interp_genpos as they are (Model: MatObj, theorem "
+                   "xoprob_after_relabel) — that the implementation does not read them is checked by Spec + correspondence "
+                   "on these histories only; metadata loaded stale from HDF5 or set by hand are not generated",
+                   "select() with the same markers in two orders is compared on the implementation (Spec) and proved for "
+                   "the model (select_order_independent: grouped object, no duplicated physical position, distinct "
+                   "indices); an UNGROUPED map keeps the supplied order by design and nothing is demanded of it",
+                   "genetic positions are dyadic rationals, physical positions integers < 2^53: float results are "
                    "within 1e-9 of the exact rational model",
                    "gdist1g/gdist1p are called on label arrays whose equal labels are contiguous (documented "
                    "precondition 'sorted'; interp_xoprob enforces it through is_grouped_vrnt; proved for the stored "
@@ -374,6 +387,48 @@ class C11(Prop):
             q.sort()
         return [a for a, _ in q], [b for _, b in q]
 
+    @staticmethod
+    def _gen_prechr(rng, mchr, mphy):
+        """labels a genotype matrix is GROUPED under before its chromosome labels are re-assigned to `mchr`: the
+        arrangement sorted by (pre label, position) is the one sorted by (final label, position), but the chromosome
+        boundaries differ — a chromosome grouped as two groups cut between two of its variants (boundaries vanish when
+        the final labels are assigned), or grouped together with the previous chromosome (a boundary appears; only
+        variants beyond every variant of that one are kept so that the order stays the same), or merely renamed.
+        Returns (mchr, mphy, pre_chr); pre_chr = None when nothing could be moved."""
+        labs = sorted(set(mchr))
+        rank = {c: i for i, c in enumerate(labs)}
+        keep = list(range(len(mchr)))
+        pre = {i: 2 * rank[mchr[i]] for i in keep}
+        moved = False
+        for c in labs:
+            ix = [i for i in keep if mchr[i] == c]
+            if not ix:
+                continue
+            u = rng.random()
+            if u < 0.4 and len(ix) >= 2:
+                ps = sorted(mphy[i] for i in ix)
+                cut = ps[rng.randrange(1, len(ps))]
+                for i in ix:
+                    if mphy[i] >= cut:
+                        pre[i] = 2 * rank[c] + 1
+                moved = True
+            elif u < 0.85 and rank[c] > 0:
+                prev = [i for i in keep if mchr[i] == labs[rank[c] - 1]]
+                if not prev:
+                    continue
+                t = max(pre[i] for i in prev)                      # the (last) group of the previous chromosome
+                pmax = max(mphy[i] for i in keep if pre[i] == t)
+                stay = [i for i in ix if mphy[i] > pmax]
+                if not stay:
+                    continue
+                keep = [i for i in keep if mchr[i] != c or i in stay]
+                for i in stay:
+                    pre[i] = t
+                moved = True
+        if not moved:
+            return mchr, mphy, None
+        return [mchr[i] for i in keep], [mphy[i] for i in keep], [pre[i] for i in keep]
+
     def _gen_derived(self, rng, rows, big=None):
         """marker set of a map derived by interp_gmap: distinct positions, >= 2 per chromosome, only chromosomes
         of the parent, in sorted or shuffled order; `big`: at least as many markers as the parent"""
@@ -420,7 +475,7 @@ class C11(Prop):
                 if rng.random() < 0.8:
                     ops.append({"op": "build"})
             elif w < 0.25 and n_est > 2:
-                form = rng.choice(["list", "neg", "mask", "slice", "slice", "int", "pylist"])
+                form = rng.choice(["list", "neg", "mask", "slice", "slice", "int", "pylist", "mixneg"])
                 if form == "slice":
                     a_ = rng.randrange(n_est)
                     st = rng.choice([1, 1, 2, 3])
@@ -434,7 +489,7 @@ class C11(Prop):
                 ops.append(o)
                 n_est -= len(o["idx"])
             elif w < 0.42 and n_est > 2:
-                form = rng.choice(["list", "neg", "mask", "slice", "slice", "pylist"])
+                form = rng.choice(["list", "neg", "mask", "slice", "slice", "pylist", "mixneg"])
                 kk = rng.randint(max(1, n_est - 2), n_est)
                 if form == "slice":
                     a_ = rng.randrange(0, 2)
@@ -449,6 +504,12 @@ class C11(Prop):
                     idx = rng.sample(range(n_est), kk)
                     if form == "mask":
                         idx.sort()
+                    elif form == "mixneg" and rng.random() < 0.6:
+                        # the rows in an order whose index ARRAY is numerically ascending: the tail of the map
+                        # (written as negative indices) first, then its head
+                        idx.sort()
+                        cut = rng.randrange(1, len(idx)) if len(idx) > 1 else 0
+                        idx = idx[cut:] + idx[:cut]
                     o = {"op": "select", "idx": idx, "form": form}
                 if o["idx"]:
                     ops.append(o)
@@ -682,6 +743,38 @@ class C11(Prop):
         out.append({"kind": "big", "cls": "ext", "counts": [130, 1100], "seed": 8, "fn": "kosambi", "mopts": {"phy_dt": "uint32"}})
         # more than 127 / 255 chromosomes
         out.append({"kind": "big", "cls": "std", "counts": [2, 3] * 140, "seed": 9, "fn": "kosambi"})
+        # round 5: history on the genotype matrix — grouped under other labels, then the chromosome labels re-assigned
+        # (chromosome 1 split into its arms 11 / 12: a chromosome start appears; two groups merged into chromosome 20:
+        # a start vanishes), then placed on a map that uses the new labels
+        rows_arm = [[11, 100, 0, 0], [11, 300, "5/16", 1], [11, 500, "1/2", 2], [12, 600, 0, 3], [12, 800, "1/4", 4],
+                    [12, 1000, "5/8", 5], [20, 100, 0, 6], [20, 400, "3/8", 7], [20, 900, "9/8", 8]]
+        for cls in ("std", "ext"):
+            for fn in ("haldane", "kosambi"):
+                out.append({"kind": "xoprob", "cls": cls, "fn": fn, "phased": cls == "std", "rows": rows_arm,
+                            "mchr": [11, 11, 11, 12, 12, 20, 20, 20], "mphy": [150, 350, 450, 700, 900, 200, 500, 800],
+                            "pre_chr": [1, 1, 1, 1, 1, 2, 2, 2]})
+            out.append({"kind": "xoprob", "cls": cls, "fn": "haldane", "phased": cls == "ext", "rows": rows_arm,
+                        "mchr": [20, 12, 20, 11, 20, 12, 11], "mphy": [800, 700, 200, 350, 500, 900, 150],
+                        "pre_chr": [5, 2, 4, 0, 5, 2, 0], "rows2": rows_arm,
+                        "steps": [{"op": "genpos", "map": 0, "fn": "haldane"}, {"op": "xoprob", "map": 1, "fn": "kosambi"}],
+                        "preset": None})
+        # round 5: select() with an integer index array that is NOT ascending on a grouped map (the rows of several
+        # chromosomes interleaved), as the first and only edit and after other edits; also as a python list / negative
+        rows_s = [[1, 10, 0, 0], [1, 20, "1/8", 1], [1, 30, "3/8", 2], [1, 40, "1/2", 3], [2, 5, 0, 4], [2, 9, "1/4", 5],
+                  [2, 15, "1/2", 6], [3, 7, "1/8", 7], [3, 70, "3/4", 8], [3, 90, 1, 9]]
+        for cls in ("std", "ext"):
+            for form in ("list", "pylist", "neg"):
+                out.append({"kind": "edit", "cls": cls, "auto_group": True, "rows": rows_s,
+                            "ops": [{"op": "select", "idx": [9, 5, 2, 0, 7, 4, 3, 6], "form": form}],
+                            "qchr": [1, 2, 3, 3], "qphy": [25, 7, 50, 90]})
+            # (the index ARRAY [-3, -2, -1, 0, 1, 4] is numerically ascending, the rows it selects are not)
+            out.append({"kind": "edit", "cls": cls, "auto_group": True, "rows": rows_s,
+                        "ops": [{"op": "select", "idx": [7, 8, 9, 0, 1, 4], "form": "mixneg"}, {"op": "rd"}],
+                        "qchr": [1, 2, 3, 3], "qphy": [25, 7, 50, 90]})
+            out.append({"kind": "edit", "cls": cls, "auto_group": True, "rows": rows_s,
+                        "ops": [{"op": "remove", "idx": [1]}, {"op": "select", "idx": [8, 0, 4, 1, 6, 2, 5], "form": "list"},
+                                {"op": "build"}, {"op": "rd"}],
+                        "qchr": [1, 2, 3, 3], "qphy": [25, 7, 50, 90]})
         return out
 
     def generate(self, rng, n, tier):
@@ -824,9 +917,14 @@ class C11(Prop):
                         c2.append(c)
                         p2.append(p)
                 fn = rng.choice(["haldane", "kosambi"])
+                pre_chr = None
+                if rng.random() < 0.4:
+                    # history on the MATRIX: grouped under other labels (chromosome boundaries elsewhere), then its
+                    # chromosome labels re-assigned through the vrnt_chrgrp property before any placement
+                    c2, p2, pre_chr = self._gen_prechr(rng, c2, p2)
                 case = {"kind": "xoprob", "cls": cls, "fn": fn,
                         "phased": rng.random() < 0.5, "rows": rows, "mchr": c2, "mphy": p2,
-                        **({"mopts": mo} if mo else {})}
+                        **({"mopts": mo} if mo else {}), **({"pre_chr": pre_chr} if pre_chr else {})}
                 if rng.random() < 0.7:
                     # history on ONE matrix object: several placements on two different maps / map functions,
                     # optionally starting from unrelated preset positions / probabilities
@@ -1015,6 +1113,9 @@ class C11(Prop):
                 kw["vrnt_genpos"] = numpy.array([_f(x) for x in pre["genpos"]], dtype=float)
                 if pre.get("xoprob") is not None:
                     kw["vrnt_xoprob"] = numpy.array([_f(x) for x in pre["xoprob"]], dtype=float)
+            pre_chr = case.get("pre_chr")
+            if pre_chr:
+                vc = numpy.array(pre_chr, dtype=int)          # the labels the matrix is grouped under
             if case["phased"]:
                 mat = numpy.zeros((2, 2, nv), dtype="int8")
                 gm = m["dpgm"].DensePhasedGenotypeMatrix(mat, vrnt_chrgrp=vc, vrnt_phypos=vp, **kw)
@@ -1022,6 +1123,12 @@ class C11(Prop):
                 mat = numpy.zeros((2, nv), dtype="int8")
                 gm = m["dgm"].DenseGenotypeMatrix(mat, vrnt_chrgrp=vc, vrnt_phypos=vp, **kw)
             gm.group_vrnt()
+            if pre_chr:
+                # chromosome labels re-assigned AFTER grouping (still ascending; the chromosome boundaries move):
+                # whatever the matrix cached when it was grouped no longer describes its label array
+                fin = {(int(a), int(p)): int(c) for a, p, c in zip(pre_chr, case["mphy"], case["mchr"])}
+                gm.vrnt_chrgrp = numpy.array([fin[(int(a), int(p))] for a, p in zip(gm.vrnt_chrgrp, gm.vrnt_phypos)],
+                                             dtype=int)
 
             def snap():
                 return {"genpos": None if gm.vrnt_genpos is None else canon.enc(numpy.array(gm.vrnt_genpos)),
@@ -1083,6 +1190,10 @@ class C11(Prop):
             return int(idx[0])
         if form == "pylist":
             return [int(i) for i in idx]
+        if form == "mixneg":
+            # rows of the second half counted from the end: numerically "ascending" arrays like [-2, -1, 0, 1] wrap
+            # around (last rows first)
+            return numpy.array([i - n if 2 * i >= n else i for i in idx], dtype=int)
         return numpy.array(idx, dtype=int)
 
     def _run_edit(self, case):
@@ -1125,6 +1236,7 @@ class C11(Prop):
             snaps.append({"stored": stored, "tags_ok": tags_ok, "meta": _meta(g), "out": outv, "raised": raised,
                           "built_from": built_from})
 
+        order_dep = None
         for o in case["ops"]:
             n = len(g.vrnt_chrgrp)
             rec, raised = dict(o), None
@@ -1135,8 +1247,16 @@ class C11(Prop):
                 if o.get("form") == "slice" and list(range(n))[slice(*o["slice"])] != idx:
                     continue
                 arg = self._index_arg(o, n)
+                twin = None
+                if o["op"] == "select" and o.get("form", "list") != "mask" and list(idx) != sorted(idx):
+                    # the same markers supplied in ascending order to a copy of the object as it stands
+                    import copy as _cp
+                    twin = _cp.deepcopy(g)
                 (g.remove if o["op"] == "remove" else g.select)(arg)
                 rec = {"op": o["op"], "idx": sorted(set(idx)) if o["op"] == "remove" else idx, "form": o.get("form", "list")}
+                if twin is not None:
+                    twin.select(numpy.array(sorted(idx), dtype=int))
+                    order_dep = self._order_dependence(cls, g, twin, q0)
             elif o["op"] == "rd":
                 try:
                     g.remove_discrepancies()
@@ -1257,6 +1377,9 @@ class C11(Prop):
             else:
                 raise ValueError(o["op"])
             snap(rec, None, raised)
+            if o["op"] == "select" and order_dep:
+                snaps[-1]["order_dep"] = order_dep
+            order_dep = None
             # interrogate: the case's queries, plus markers of the map as it stands now (own-marker law) and
             # points between neighbours of the stored arrays
             cur = _stored(cls, g)[0]
@@ -1280,7 +1403,9 @@ class C11(Prop):
             chr_, gen = g.vrnt_chrgrp, g.vrnt_genpos
             fin = {"chr": [r[0] for r in cur], "gen": [r[2] for r in cur],
                    "d2": canon.enc(g.gdist2g(chr_, gen))}
-            if _contiguous(fin["chr"]):
+            # sequential distances over the map's OWN markers: asked whenever the label array meets the documented
+            # precondition of gdist1g, and whenever the object itself reports is_grouped() ("sorted and grouped")
+            if _contiguous(fin["chr"]) or g.is_grouped():
                 fin["d1"] = canon.enc(g.gdist1g(chr_, gen))
         try:
             cong = bool(g.is_congruent())
@@ -1300,6 +1425,51 @@ class C11(Prop):
                     kept_final.append({"rows": bf, "qchr": [c for c, _ in qs], "qphy": [x for _, x in qs], "out": o2})
         return {"done": done, "snaps": snaps, "is_congruent": cong, "final": fin, "alias_ok": alias_ok,
                 "kept_final": kept_final}
+
+    @staticmethod
+    def _order_dependence(cls, g, twin, q0):
+        """`g` and `twin` hold the SAME markers, selected from the same object in two different orders.  Where either
+        reports is_grouped() (documented: sorted and grouped), what the property speaks about must not differ: the
+        sequential distances over the object's own markers, is_congruent(), interp_genpos at the case's queries.
+        Returns the list of differences (empty = none)."""
+        import copy as _cp
+        if not (g.is_grouped() or twin.is_grouped()):
+            return []
+        dep = []
+
+        def own_d1(obj):
+            try:
+                with numpy.errstate(all="ignore"):
+                    return canon.enc(obj.gdist1g(obj.vrnt_chrgrp, obj.vrnt_genpos))
+            except (ValueError, IndexError) as e:
+                return type(e).__name__
+
+        def cong(obj):
+            try:
+                return bool(_cp.deepcopy(obj).is_congruent())
+            except (ValueError, IndexError) as e:
+                return type(e).__name__
+
+        def ans(obj):
+            if not obj.has_spline():
+                return None
+            try:
+                return canon.enc(obj.interp_genpos(numpy.array([c for c, _ in q0], dtype=int),
+                                                   numpy.array([x for _, x in q0], dtype=int)))
+            except (ValueError, IndexError) as e:
+                return type(e).__name__
+        a, b = own_d1(g), own_d1(twin)
+        if a != b:
+            dep.append(f"sequential distances over its own markers {a} (ascending indices: {b})")
+        a, b = cong(g), cong(twin)
+        if a != b:
+            dep.append(f"is_congruent() {a} (ascending indices: {b})")
+        a, b = ans(_cp.deepcopy(g)), ans(_cp.deepcopy(twin))
+        if a != b:
+            dep.append(f"interp_genpos {a} (ascending indices: {b})")
+        if dep:
+            dep.append(f"stored (chr, phy) {[(r[0], r[1]) for r in _stored(cls, g)[0]]}")
+        return dep
 
     def _run_big(self, case):
         """sizes past every plausible internal constant (chunks of 1024 / 4096, int8 / int16 counters): maps with
@@ -1749,6 +1919,12 @@ class C11(Prop):
                     clauses.append(f"step{n}:{st['op']} changed which genetic position belongs to which marker")
                     break
                 prev = b["stored"]
+            # ... and select() with the same markers in another order gives a map with the same distances, congruence,
+            # answers
+            for n, (st, b) in enumerate(zip(obs["done"], obs["snaps"])):
+                if b.get("order_dep"):
+                    clauses.append(f"step{n}:select({st['idx']}) on a grouped map depends on the order in which the rows "
+                                   f"were supplied: " + "; ".join(b["order_dep"]))
             if msn and msn[-1]["congruent"] != obs["is_congruent"]:
                 why.append(f"is_congruent {obs['is_congruent']} (model: {msn[-1]['congruent']})")
             if not obs["alias_ok"]:
@@ -1873,6 +2049,8 @@ class C11(Prop):
             if k == "xoprob":
                 if case.get("preset"):
                     yield {**case, "preset": None}
+                if case.get("pre_chr"):
+                    yield {kk: vv for kk, vv in case.items() if kk != "pre_chr"}
                 st = case.get("steps") or []
                 for i in range(len(st)):
                     if len(st) > 1:
@@ -1880,6 +2058,8 @@ class C11(Prop):
             for i in range(len(case[qa])):
                 if len(case[qa]) > 1:
                     c2 = {**case, qa: case[qa][:i] + case[qa][i + 1:], qb: case[qb][:i] + case[qb][i + 1:]}
+                    if k == "xoprob" and case.get("pre_chr"):
+                        c2["pre_chr"] = case["pre_chr"][:i] + case["pre_chr"][i + 1:]
                     if k == "xoprob" and case.get("preset"):
                         pr = case["preset"]
                         c2["preset"] = {kk: (None if vv is None else vv[:i] + vv[i + 1:]) for kk, vv in pr.items()}
@@ -1995,6 +2175,30 @@ class C11(Prop):
             g = self._vrnt_genpos
             d[1:] = numpy.where(numpy.isinf(d[1:]), numpy.abs(g[1:] - g[:-1]), d[1:])
             self.vrnt_xoprob = gmapfn.mapfn(d)
+
+        def xoprob_starts_from_cached_group_indices(self, gmap, gmapfn, **kw):
+            # chromosome starts taken from the start indices cached by group_vrnt instead of the label array
+            self.vrnt_genpos = gmap.interp_genpos(self._vrnt_chrgrp, self._vrnt_phypos)
+            gdist = numpy.empty(self._vrnt_genpos.shape, dtype=float)
+            gdist[1:] = numpy.diff(self._vrnt_genpos)
+            gdist[self._vrnt_chrgrp_stix] = numpy.inf
+            self.vrnt_xoprob = gmapfn.mapfn(gdist)
+
+        def genpos_by_cached_groups(self, gmap, **kw):
+            # the matrix interpolates chromosome by chromosome over the groups cached by group_vrnt
+            out = numpy.full(len(self._vrnt_phypos), numpy.nan)
+            for name, st, sp in zip(self._vrnt_chrgrp_name, self._vrnt_chrgrp_stix, self._vrnt_chrgrp_spix):
+                out[st:sp] = gmap.interp_genpos(numpy.repeat(name, sp - st), self._vrnt_phypos[st:sp])
+            self.vrnt_genpos = out
+
+        def xoprob_starts_where_float_labels_differ(self, gmap, gmapfn, **kw):
+            self.vrnt_genpos = gmap.interp_genpos(self._vrnt_chrgrp, self._vrnt_phypos)
+            gdist = numpy.empty(self._vrnt_genpos.shape, dtype=float)
+            if len(gdist):
+                gdist[1:] = numpy.diff(self._vrnt_genpos)
+                gdist[0] = numpy.inf
+                gdist[1:][numpy.diff(self._vrnt_chrgrp.astype(float)) != 0] = numpy.inf
+            self.vrnt_xoprob = gmapfn.mapfn(gdist)
 
         def xoprob_rolled(self, gmap, gmapfn, **kw):
             self.vrnt_genpos = gmap.interp_genpos(self._vrnt_chrgrp, self._vrnt_phypos)
@@ -2422,6 +2626,38 @@ class C11(Prop):
         def se(name, mk):
             return pair(patch(S, name, mk(S)), patch(E, name, mk(E)))
 
+        def mk_select_regroup_only(cls_):
+            real = cls_.select
+
+            def select_regroups_without_sorting(self, indices, **kw):
+                # "a subset of a sorted map is still sorted": group indices recomputed, rows left as selected
+                was = self.is_grouped()
+                if was:
+                    self.ungroup()
+                real(self, indices, **kw)
+                if was:
+                    u = numpy.unique(self._vrnt_chrgrp, return_index=True, return_counts=True)
+                    self._vrnt_chrgrp_name, self._vrnt_chrgrp_stix, self._vrnt_chrgrp_len = u
+                    self._vrnt_chrgrp_spix = self._vrnt_chrgrp_stix + self._vrnt_chrgrp_len
+            return select_regroups_without_sorting
+
+        def mk_select_sort_unless_ascending(cls_):
+            real = cls_.select
+
+            def select_sorts_unless_ascending(self, indices, **kw):
+                # the sort is skipped when the index ARRAY is numerically ascending (negative entries wrap around)
+                ix = None if isinstance(indices, slice) else numpy.asarray(indices)
+                skip = (self.is_grouped() and ix is not None and ix.dtype != bool and ix.ndim == 1 and len(ix) > 1
+                        and bool(numpy.all(numpy.diff(ix) > 0)))
+                if not skip:
+                    return real(self, indices, **kw)
+                self.ungroup()
+                real(self, indices, **kw)
+                u = numpy.unique(self._vrnt_chrgrp, return_index=True, return_counts=True)
+                self._vrnt_chrgrp_name, self._vrnt_chrgrp_stix, self._vrnt_chrgrp_len = u
+                self._vrnt_chrgrp_spix = self._vrnt_chrgrp_stix + self._vrnt_chrgrp_len
+            return select_sorts_unless_ascending
+
         round4 = [
             ("r4_interp_gmap_copies_parent_metadata_D110", lambda: se("interp_gmap", mk_interp_gmap_prerepair)),
             # (the same mechanism in both map-function classes is ONE mutant: both classes are patched together)
@@ -2527,6 +2763,13 @@ class C11(Prop):
                                                         patch(E, "lexsort", lexsort_nochr))),
             ("xoprob_not_reset_at_chromosome_start", lambda: patch(D, "interp_xoprob", xoprob_noreset)),
             ("xoprob_rolled_by_one", lambda: patch(D, "interp_xoprob", xoprob_rolled)),
+            ("r5_xoprob_chromosome_starts_from_cached_group_indices",
+             lambda: patch(D, "interp_xoprob", xoprob_starts_from_cached_group_indices)),
+            ("r5_select_regroups_without_sorting", lambda: se("select", mk_select_regroup_only)),
+            ("r5_select_sorts_only_when_index_array_not_ascending", lambda: se("select", mk_select_sort_unless_ascending)),
+            ("r5_matrix_interp_genpos_over_cached_groups", lambda: patch(D, "interp_genpos", genpos_by_cached_groups)),
+            ("r5_xoprob_chromosome_starts_where_float_labels_differ",
+             lambda: patch(D, "interp_xoprob", xoprob_starts_where_float_labels_differ)),
         ]
 
 
